@@ -143,6 +143,14 @@ func (w *World) formConsts() map[string]int64 {
 // nilSafeParam: parameter i of f is never dereferenced unless a non-nil guard
 // holds (directly, or by being passed on to nil-safe parameters only).
 func (w *World) nilSafeParam(f *ssa.Function, i int, depth int) bool {
+	return w.nilSafeParamWith(f, i, depth, nil)
+}
+
+// nilSafeParamWith: as nilSafeParam, for a call at which the parameters coNil
+// are the constant nil as well: a use under a non-nil test of one of those is
+// not reached by that call either (locateRoot(…, nil, nil): `if top != nil {
+// … low … }`).
+func (w *World) nilSafeParamWith(f *ssa.Function, i int, depth int, coNil []int) bool {
 	if depth > 6 || i >= len(f.Params) {
 		return false
 	}
@@ -151,11 +159,23 @@ func (w *World) nilSafeParam(f *ssa.Function, i int, depth int) bool {
 	if refs == nil {
 		return true
 	}
+	tested := []ssa.Value{p}
+	for _, j := range coNil {
+		if j < len(f.Params) {
+			tested = append(tested, f.Params[j])
+		}
+	}
 	guarded := func(b *ssa.BasicBlock) bool {
 		for _, g := range guardsAt(b) {
-			if bo, ok := g.Cond.(*ssa.BinOp); ok && (bo.X == ssa.Value(p) && isNilConst(bo.Y) || bo.Y == ssa.Value(p) && isNilConst(bo.X)) {
-				if (bo.Op == token.NEQ && g.Val) || (bo.Op == token.EQL && !g.Val) {
-					return true
+			bo, ok := g.Cond.(*ssa.BinOp)
+			if !ok {
+				continue
+			}
+			for _, q := range tested {
+				if bo.X == q && isNilConst(bo.Y) || bo.Y == q && isNilConst(bo.X) {
+					if (bo.Op == token.NEQ && g.Val) || (bo.Op == token.EQL && !g.Val) {
+						return true
+					}
 				}
 			}
 		}
@@ -241,8 +261,14 @@ func ruleNilArgs(w *World, r *RuleResult) {
 					key = fmt.Sprintf("%s #%d", key, n+1)
 				}
 				// a guard at the call site that excludes nil?
-				if w.nilSafeParam(g, j, 0) {
-					r.ok(key, w.instrPos(c), "callee tests this parameter against nil before every use", true)
+				var coNil []int
+				for k, oa := range c.Common().Args {
+					if k != j && isNilConst(oa) {
+						coNil = append(coNil, k)
+					}
+				}
+				if w.nilSafeParamWith(g, j, 0, coNil) {
+					r.ok(key, w.instrPos(c), "callee tests this parameter (or another that is nil at this call as well) against nil before every use", true)
 				} else {
 					r.bad(key, w.instrPos(c), fmt.Sprintf("%s may be nil here (%s) and %s dereferences it unconditionally: nil pointer panic", w.exprOf(f, a).String(), "nil constant / nil φ-edge / never-assigned local", w.shortName(g)))
 				}
